@@ -217,6 +217,13 @@ func (r *Report) Finish(quiet bool) int {
 			fmt.Printf("VIOLATION property=%s replay=%s\n", f.Property, path)
 		}
 	}
+	if want := os.Getenv("COMDEXLINT_OBL"); want != "" {
+		for _, o := range r.Obligations {
+			if o.Rule == want {
+				fmt.Printf("OBL %v %s | %s | %s | %s\n", o.OK, o.Rule, o.Construct, o.Detail, o.Pos)
+			}
+		}
+	}
 	if os.Getenv("COMDEXLINT_EMIT_KNOWN") != "" {
 		var ks []KnownFinding
 		for _, f := range newF {
